@@ -119,6 +119,16 @@ func famC08(g *Gen, o *Out, n int, thorough bool) {
 			fileBytes = func() []byte { return mf.bytes() }
 		default:
 			dcw := deferred.NewDeferredCarWriterForPath(p, roots, wo.opts()...)
+			// listeners registered before the goroutines start (registration itself is set-up): the
+			// listener list is state that concurrent Puts share; once-only listeners are removed by Put
+			var onceFired, alwaysFired int32
+			for i := 0; i < g.pick(4); i++ {
+				if g.pick(2) == 0 {
+					dcw.OnPut(func(int) { atomic.AddInt32(&onceFired, 1) }, true)
+				} else {
+					dcw.OnPut(func(int) { atomic.AddInt32(&alwaysFired, 1) }, false)
+				}
+			}
 			put = func(b Blk) error { return dcw.Put(ctx, string(b.C.Bytes()), b.D) }
 			has = func(c cid.Cid) (bool, error) { return dcw.Has(ctx, string(c.Bytes())) }
 			finalize = dcw.Close
